@@ -482,9 +482,14 @@ def xmlNameOk (declared : List Str) (k : Str) : Bool :=
    | some p => p == S "xml" || p == S "xmlns" || declared.contains p
    | none => true)
 
-/-- a legal `xmlns:p="uri"` -/
+/-- `XML_RESERVED_NAMESPACES` (regenerated; empty on a tree without the reserved-names check) -/
+def reservedNs (v : Str) : Bool := Pyxv.Gen.xmlReservedNamespaces.any fun r => r.toList == v
+
+/-- a legal `xmlns="uri"` / `xmlns:p="uri"`: not a reserved namespace name; with a prefix, the URI is
+    non-empty and the prefix is not `xml` / `xmlns` -/
 def nsDeclOk (kv : Str × Str) : Bool :=
-  !startsWith kv.1 (S "xmlns:") || (!kv.2.isEmpty && kv.1.drop 6 != S "xml" && kv.1.drop 6 != S "xmlns")
+  !((kv.1 == S "xmlns" || startsWith kv.1 (S "xmlns:")) && reservedNs kv.2) &&
+  (!startsWith kv.1 (S "xmlns:") || (!kv.2.isEmpty && kv.1.drop 6 != S "xml" && kv.1.drop 6 != S "xmlns"))
 
 def attrsOk (declared : List Str) (attrs : List (Str × Str)) : Bool :=
   attrs.all fun kv => xmlNameOk declared kv.1 && xmlText kv.2
@@ -494,7 +499,7 @@ def attrsOk (declared : List Str) (attrs : List (Str × Str)) : Bool :=
 def Header.xmlOk (h : Header) : Bool :=
   let d := declaredBy h.nsmap
   h.nsmap.all nsDeclOk && attrsOk d h.nsmap && xmlText h.title &&
-  xmlNameOk d h.rootName && attrsOk d h.rootAttrs &&
+  xmlNameOk d h.rootName && attrsOk d h.rootAttrs && h.rootAttrs.all nsDeclOk &&
   (match h.submission with | some l => attrsOk d l | none => true) &&
   (match h.bodyClass with | some c => xmlText c | none => true) &&
   (match h.instanceName with | some c => xmlText c | none => true)
@@ -505,7 +510,9 @@ def headerTricky (st : Dict) (h : Header) : Bool :=
   (match aget (S "instance_name") st with
    | some (.s v) => isInfix (S "${") v
    | _ => false) ||
-  h.rootAttrs.any fun kv => startsWith kv.1 (S "xmlns:")
+  (h.rootAttrs.any fun kv => startsWith kv.1 (S "xmlns:")) ||
+  -- an element name with the prefix `xmlns` is rejected only by trees that have the reserved-names check
+  prefixOf h.rootName == some (S "xmlns")
 
 /-- cleaned settings dict + arguments ↦ header (or the error the code raises) -/
 def header (st : Dict) (a : Args) : M Header :=
